@@ -8,16 +8,32 @@ changes and checks), `Lemmas/Resolve`, `Lemmas/FSFrame`, `Lemmas/PathSegs`.  `pr
 `filepath.Walk`, `dirhash.HashDir` and the tail of `Builder.ensureRemotePackage` (tied to the code
 by the `sanitise` lane); `FS`, `resolve` the model of the kernel.
 
-Vocabulary (`W = pathSegs work`, the physical components of the temporary work directory):
+Vocabulary (`W = pathSegs work`, the physical components of the temporary work directory,
+`F = pathSegs final`):
 * `AbsClean work` — `work` is absolute and clean.
 * `RealDir fs W` — every prefix of `W` is a directory (no link among the components of `work`).
+* `KeysPhysical fs` — every bound path's parent is bound to a directory.
 * `SanNames W fs` — the components of every key bound at or below `W` are names a directory entry
-  can have (not `""`, `.`, `..`, no `/`); needed because `FS` is an abstract map.
+  can have (not `""`, `.`, `..`, no `/`); needed because `FS` is an abstract map
+  (`C10_cex_frame_nonplain_key`).
 * `SanAt W fs path` — `path` is absolute, clean, at or below `W`, and no proper prefix of it is a
   link: every path the walk hands to the callback is like that.
 * `snIsDir node` — the node is a directory; `snCheck fs root rel` — the containment and kind check of
-  the callback (`prepVisit_eq` is the callback in normal form).
+  the callback (`sn_prepVisit_eq` is the callback in normal form).
 * `snRules fs work` — the ignore rules `ensurePrepared` loads.
+* `SanGood rules work fs' k n` — the binding `k ↦ n` has passed the callback: `k` is the root, or
+  its relative path is not excluded and `SanKind`: `n` is a regular file, a directory, or a link that
+  resolved (when visited) to a regular file or directory physically at or below `W`.
+* `SnLocalLink W p t` — the link at `p` has a relative target `t` with all `..` first and no more of
+  them than `p` is deep below `W`.
+
+Findings recorded here:
+* F31 `C10_cex_abs_link_into_workdir`, `C10_cex_rel_link_through_workdir_name`: the checks are made
+  while the package still has its temporary name; a link whose target mentions that name (absolute,
+  or relative through `../.tmp-N/`) passes the walk and the hash and dangles after the rename.  So
+  the `_partial` theorems speak of the state before the rename; that links still resolve inside
+  after it is proved only for local links (`C10_links_resolve_after_rename_partial`).
+* `C10_cex_tmp_left_on_failure`: when the preparation fails the temporary directory is left behind.
 -/
 namespace Slug
 
@@ -33,7 +49,7 @@ theorem C10_fail_on_dangling (rules : List Rule) (root : Str) (fs : FS) (absPath
     (hroot : fs.evalSymlinks root = some absRoot)
     (hdang : fs.evalSymlinks (pathJoin (ofSegs absRoot) rel) = none) :
     prepVisit rules root fs absPath node = (fs, .fail) := by
-  rw [prepVisit_eq]
+  rw [sn_prepVisit_eq]
   simp only [hrel, hdot, hex, hexd, if_false, Bool.false_eq_true]
   unfold snCheck
   simp only [hroot, hdang]
@@ -49,7 +65,7 @@ theorem C10_fail_on_escape (rules : List Rule) (root : Str) (fs : FS) (absPath :
     (hreal : fs.evalSymlinks (pathJoin (ofSegs absRoot) rel) = some real)
     (hesc : ¬ absRoot <+: real) :
     prepVisit rules root fs absPath node = (fs, .fail) := by
-  rw [prepVisit_eq]
+  rw [sn_prepVisit_eq]
   simp only [hrel, hdot, hex, hexd, if_false, Bool.false_eq_true]
   unfold snCheck
   have : absRoot.isPrefixOf real = false := by
@@ -69,7 +85,7 @@ theorem C10_fail_unless_file_or_dir (rules : List Rule) (root : Str) (fs : FS) (
     (hf : ∀ pm mt c, fs.lookup real ≠ some (.file pm mt c))
     (hd : ∀ pm mt, fs.lookup real ≠ some (.dir pm mt)) :
     prepVisit rules root fs absPath node = (fs, .fail) := by
-  rw [prepVisit_eq]
+  rw [sn_prepVisit_eq]
   simp only [hrel, hdot, hex, hexd, if_false, Bool.false_eq_true]
   unfold snCheck
   simp only [hroot, hreal]
@@ -106,7 +122,7 @@ theorem C10_fail_on_missing_root (rules : List Rule) (root : Str) (fs : FS) (abs
     (hexd : (snIsDir node && (excludes rules (rel ++ ['/'])).1) = false)
     (hroot : fs.evalSymlinks root = none) :
     prepVisit rules root fs absPath node = (fs, .fail) := by
-  rw [prepVisit_eq]
+  rw [sn_prepVisit_eq]
   simp only [hrel, hdot, hex, hexd, if_false, Bool.false_eq_true]
   unfold snCheck
   simp only [hroot]
@@ -172,7 +188,7 @@ theorem C10_fail_propagates_ensure (fs : FS) (work final : Str) (n : Node) (fs1 
     (hl : fs.lstat work = .ok n)
     (hw : prepWalk (snRules fs work) work prepFuel fs work n = (fs1, .fail)) :
     ensurePrepared fs work final = (fs1, .fail) := by
-  rw [ensurePrepared_eq]
+  rw [sn_ensurePrepared_eq]
   simp only [hl, hw]
 
 /-! ## 2. what an accepted path looks like -/
@@ -188,52 +204,18 @@ theorem C10_visited_ok (rules : List Rule) (root : Str) (fs fs' : FS) (absPath :
     ∃ absRoot real, fs.evalSymlinks root = some absRoot ∧
       fs.evalSymlinks (pathJoin (ofSegs absRoot) rel) = some real ∧ absRoot <+: real ∧
       ((∃ pm mt c, fs.lookup real = some (.file pm mt c)) ∨ (∃ pm mt, fs.lookup real = some (.dir pm mt))) := by
-  rw [prepVisit_eq] at h
+  rw [sn_prepVisit_eq] at h
   simp only [hrel, hdot, hex, if_false, Bool.false_eq_true] at h
   split at h
   · cases h
   · have h1 : fs = fs' := congrArg Prod.fst h
     have h2 : snCheck fs root rel = .cont := congrArg Prod.snd h
-    refine ⟨h1.symm, ?_⟩
-    unfold snCheck at h2
-    split at h2
-    · cases h2
-    · rename_i absRoot hroot
-      split at h2
-      · cases h2
-      · rename_i real hreal
-        split at h2
-        · cases h2
-        · rename_i hpre
-          have hpre' : absRoot <+: real := by
-            apply List.isPrefixOf_iff_prefix.mp
-            cases hb : absRoot.isPrefixOf real with
-            | true => rfl
-            | false => rw [hb] at hpre; simp at hpre
-          refine ⟨absRoot, real, hroot, hreal, hpre', ?_⟩
-          split at h2
-          · rename_i pm mt c hl; exact Or.inl ⟨pm, mt, c, hl⟩
-          · rename_i pm mt hl; exact Or.inr ⟨pm, mt, hl⟩
-          · cases h2
+    exact ⟨h1.symm, sn_check_cont h2⟩
 
 /-- the callback never answers `SkipDir` for anything but a directory -/
 theorem C10_skipDir_only_dirs (rules : List Rule) (root : Str) (fs fs' : FS) (absPath : Str) (node : Node)
-    (h : prepVisit rules root fs absPath node = (fs', .skipDir)) : snIsDir node = true := by
-  rw [prepVisit_eq] at h
-  split at h
-  · cases h
-  · split at h
-    · cases h
-    · split at h
-      · cases h
-      · split at h
-        · rename_i hc
-          simp only [Bool.and_eq_true] at hc
-          exact hc.1
-        · have h2 : snCheck fs root _ = .skipDir := congrArg Prod.snd h
-          unfold snCheck at h2
-          repeat' split at h2
-          all_goals cases h2
+    (h : prepVisit rules root fs absPath node = (fs', .skipDir)) : snIsDir node = true :=
+  sn_skipDir_only_dirs h
 
 /-! ## 3. the hash opens every non-directory -/
 
@@ -347,7 +329,7 @@ theorem C10_ignored_removed (rules : List Rule) (root : Str) (fs : FS) (absPath 
     (rel : Str) (hrel : pathRel root absPath = some rel) (hdot : rel ≠ dot)
     (hex : (excludes rules rel).1 = true) :
     prepVisit rules root fs absPath node = (fs.removeAll absPath, .cont) := by
-  rw [prepVisit_eq]
+  rw [sn_prepVisit_eq]
   simp only [hrel, hdot, hex, if_false, if_true]
 
 /-- a directory excluded only as a directory (`rel/` matches) is removed and not descended into -/
@@ -355,7 +337,7 @@ theorem C10_ignored_dir_removed (rules : List Rule) (root : Str) (fs : FS) (absP
     (rel : Str) (hrel : pathRel root absPath = some rel) (hdot : rel ≠ dot)
     (hex : (excludes rules rel).1 = false) (hexd : (excludes rules (rel ++ ['/'])).1 = true) :
     prepVisit rules root fs absPath (.dir pm mt) = (fs.removeAll absPath, .skipDir) := by
-  rw [prepVisit_eq]
+  rw [sn_prepVisit_eq]
   simp only [hrel, hdot, hex, hexd, snIsDir, Bool.and_self, if_false, if_true, Bool.false_eq_true]
 
 /-- … and `RemoveAll` does remove it: when the components of the path above the last are real
@@ -400,17 +382,6 @@ theorem C10_walk_keysPhysical (rules : List Rule) (root : Str) (fuel : Nat) (fs 
     (hl : fs.lstat work = .ok node) (hk : KeysPhysical fs) :
     KeysPhysical (prepWalk rules root fuel fs work node).1 :=
   ((snStep_walk rules root (pathSegs work) fuel).1 fs work node hN (sanAt_root hc hreal) hl).keys hk
-
-/-- after the walk the work directory still resolves to itself -/
-theorem sn_work_resolves {fs fs1 : FS} {work : Str} (hc : AbsClean work) (hreal : RealDir fs (pathSegs work))
-    (hs : SnSub fs1 fs) {wp : PPath} (h : fs1.resolvePath work true = .ok wp) :
-    wp = pathSegs work ∧ fs1.resolvePath work false = .ok (pathSegs work) := by
-  have hA : SanAt (pathSegs work) fs1 work := (sanAt_root hc hreal).sub hs
-  have hnl := sn_notLink_sub hs (sn_root_notLink hreal)
-  rw [hA.resolve_eq hnl] at h
-  have := hA.resolve_false h
-  subst this
-  exact ⟨rfl, h⟩
 
 /-- **C10_frame_ensure.** `ensurePrepared` — walk, hash, rename or drop — changes nothing outside
 the work directory and the final directory, whatever the result. -/
@@ -461,5 +432,479 @@ theorem C10_no_tmp_left (fs : FS) (work final : Str) (fs' : FS) (d : PPath)
     rw [sn_get_delTree, if_pos hq]
   · rw [e]
     exact sn_renameDir_src_gone fs1 _ _ q h1 h2 hq
+
+/-! ## 8. what a successful preparation has checked -/
+
+/-- **C10_walk_sanitised.** If the walk of the work directory does not fail, every binding still
+there at or below it has passed the callback (`SanGood`): it is the root, or the rules do not exclude
+it and it is a regular file, a directory, or a link that resolved physically to a regular file or
+directory inside the work directory (in the state in which it was visited). -/
+theorem C10_walk_sanitised (rules : List Rule) (fuel : Nat) (fs : FS) (work : Str) (node : Node) (fs1 : FS)
+    (r : SRes) (hc : AbsClean work) (hreal : RealDir fs (pathSegs work)) (hk : KeysPhysical fs)
+    (hN : SanNames (pathSegs work) fs) (hl : fs.lstat work = .ok node)
+    (hw : prepWalk rules work fuel fs work node = (fs1, r)) (hr : r = .cont ∨ r = .skipDir) :
+    ∀ k n, fs1.get k = some n → pathSegs work <+: k → SanGood rules work fs1 k n :=
+  (sn_walk_post rules work fs fuel).1 fs work node fs1 r ⟨hc, hreal, SnSub.refl _, hN, hk⟩
+    (sanAt_root hc hreal) hl hw hr
+
+/-- **C10_sanitised_before_rename.** After a successful `ensurePrepared`, in the state `fs1` that was
+hashed and then renamed (or dropped): `fs1` is the fetched tree with some bindings below the work
+directory removed, and every binding left strictly below the work directory
+* is not excluded by the package's ignore rules (nor, for a directory, as `rel/`),
+* is a regular file, a directory, or a link whose path resolves physically, in `fs1`, to a regular
+  file at or below the work directory. -/
+theorem C10_sanitised_before_rename (fs : FS) (work final : Str) (fs' : FS) (d : PPath)
+    (hc : AbsClean work) (hreal : RealDir fs (pathSegs work)) (hk : KeysPhysical fs)
+    (hN : SanNames (pathSegs work) fs)
+    (h : ensurePrepared fs work final = (fs', .ok d)) :
+    ∃ fs1 : FS, (∀ q, fs1.get q = fs.get q ∨ (pathSegs work <+: q ∧ fs1.get q = none)) ∧
+      KeysPhysical fs1 ∧
+      (fs' = fs1.removeAll work ∨ fs' = fs1.renameDir (pathSegs work) (pathSegs final)) ∧
+      ∀ x n, x ≠ [] → fs1.get (pathSegs work ++ x) = some n →
+        (excludes (snRules fs work) (joinWith '/' x)).1 = false ∧
+        (snIsDir n && (excludes (snRules fs work) (joinWith '/' x ++ ['/'])).1) = false ∧
+        ((∃ pm mt c, n = .file pm mt c) ∨ (∃ pm mt, n = .dir pm mt) ∨
+         ∃ t, n = .link t ∧ ∃ real pm mt c, fs1.evalSymlinks (ofSegs (pathSegs work ++ x)) = some real ∧
+           pathSegs work <+: real ∧ fs1.lookup real = some (.file pm mt c)) := by
+  obtain ⟨nd, fs1, r, hl, hw, hr, hf⟩ := sn_ensure_ok h
+  obtain ⟨wp, hwp, hh, _, hcase⟩ := sn_finish_ok hf
+  have hstep : SnStep (pathSegs work) fs fs1 := by
+    have := (snStep_walk (snRules fs work) work (pathSegs work) prepFuel).1 fs work nd hN (sanAt_root hc hreal) hl
+    rw [hw] at this; exact this
+  obtain ⟨rfl, _⟩ := sn_work_resolves hc hreal hstep.sub hwp
+  refine ⟨fs1, hstep.shrink, hstep.keys hk, hcase, ?_⟩
+  intro x n hx hg
+  have hpre : pathSegs work <+: pathSegs work ++ x := List.prefix_append _ _
+  have hxn : ∀ c ∈ x, NameNS c := fun c hcm =>
+    hN _ n (hstep.sub.get_some hg) hpre c (List.mem_append_right _ hcm)
+  obtain ⟨hrel, hdot⟩ := sn_pathRel_below hc hxn hx
+  obtain ⟨rel, hrel', hgood⟩ := C10_walk_sanitised _ _ fs work nd fs1 r hc hreal hk hN hl hw hr _ n hg hpre
+  rw [hrel] at hrel'
+  cases hrel'
+  rcases hgood with e | ⟨h1, h2, h3⟩
+  · exact absurd e hdot
+  · refine ⟨h1, h2, ?_⟩
+    cases n with
+    | file pm mt c => exact Or.inl ⟨pm, mt, c, rfl⟩
+    | dir pm mt => exact Or.inr (Or.inl ⟨pm, mt, rfl⟩)
+    | special => exact h3.elim
+    | link t =>
+      obtain ⟨fsk, realk, hsk, hek, hprek, _⟩ := h3
+      have hne : pathSegs work ++ x ≠ pathSegs work := by
+        intro e
+        have := congrArg List.length e
+        simp only [List.length_append] at this
+        exact hx (List.eq_nil_of_length_eq_zero (by omega))
+      obtain ⟨real, pm, mt, c, _, he1, hl1⟩ := C10_hash_rejects_bad_links fs1 _ hh _ t hg hpre hne
+      have := sn_evalSymlinks_mono hsk he1
+      rw [hek] at this
+      have e : realk = real := Option.some.inj this
+      rw [e] at hprek
+      exact Or.inr (Or.inr ⟨t, rfl, real, pm, mt, c, he1, hprek, hl1⟩)
+
+/-- **C10_sanitised_partial.** The same about the directory `ensurePrepared` returns, when nothing
+was bound at or below the final name beforehand: every binding strictly below the returned directory
+is the binding the fetched tree had at the same place below the work directory, is not excluded by
+the package's ignore rules, and is a regular file, a directory, or a link which — before the
+rename, at its place in the work directory — resolved physically to a regular file inside the
+work directory.  (`_partial`: that the link still resolves inside the package *after* the rename is
+false, see `C10_cex_abs_link_into_workdir` and `C10_cex_rel_link_through_workdir_name`.) -/
+theorem C10_sanitised_partial (fs : FS) (work final : Str) (fs' : FS) (d : PPath)
+    (hc : AbsClean work) (hreal : RealDir fs (pathSegs work)) (hk : KeysPhysical fs)
+    (hN : SanNames (pathSegs work) fs)
+    (hfresh : ∀ q, pathSegs final <+: q → fs.get q = none)
+    (h : ensurePrepared fs work final = (fs', .ok d)) :
+    d = pathSegs final ∧
+    ∃ fs1 : FS, (∀ q, fs1.get q = fs.get q ∨ (pathSegs work <+: q ∧ fs1.get q = none)) ∧
+      ∀ x n, x ≠ [] → fs'.get (d ++ x) = some n →
+        fs.get (pathSegs work ++ x) = some n ∧ fs1.get (pathSegs work ++ x) = some n ∧
+        (excludes (snRules fs work) (joinWith '/' x)).1 = false ∧
+        (snIsDir n && (excludes (snRules fs work) (joinWith '/' x ++ ['/'])).1) = false ∧
+        ((∃ pm mt c, n = .file pm mt c) ∨ (∃ pm mt, n = .dir pm mt) ∨
+         ∃ t, n = .link t ∧ ∃ real pm mt c, fs1.evalSymlinks (ofSegs (pathSegs work ++ x)) = some real ∧
+           pathSegs work <+: real ∧ fs1.lookup real = some (.file pm mt c)) := by
+  have hd : d = pathSegs final := by
+    obtain ⟨_, _, _, _, _, _, hf⟩ := sn_ensure_ok h
+    obtain ⟨_, _, _, hd, _⟩ := sn_finish_ok hf
+    exact hd
+  obtain ⟨fs1, hshr, _, hcase, hall⟩ := C10_sanitised_before_rename fs work final fs' d hc hreal hk hN h
+  have hs : SnSub fs1 fs := by
+    intro q
+    rcases hshr q with e | ⟨_, e⟩
+    · exact Or.inl e
+    · exact Or.inr e
+  refine ⟨hd, fs1, hshr, ?_⟩
+  subst hd
+  intro x n hx hg
+  have hg1 : fs1.get (pathSegs work ++ x) = some n := by
+    rcases hcase with e | e
+    · rw [e] at hg
+      have := hs.get_some ((snSub_removeAll fs1 work).get_some hg)
+      rw [hfresh _ (List.prefix_append _ _)] at this; cases this
+    · have hfree : ∀ e ∈ fs1, ¬ pathSegs final <+: e.1 := by
+        intro e he hpre
+        obtain ⟨k', n'⟩ := e
+        have h1 := sn_mem_get_isSome he
+        cases hg1 : fs1.get k' with
+        | none => rw [hg1] at h1; cases h1
+        | some m =>
+          have := hs.get_some hg1
+          rw [hfresh k' hpre] at this; cases this
+      rw [e, sn_renameDir_moved fs1 _ _ x hfree] at hg
+      exact hg
+  exact ⟨hs.get_some hg1, hg1, hall x n hx hg1⟩
+
+/-! ## 9. links of the prepared package -/
+
+/-- **C10_links_relative_partial.** If nothing is bound at or below the final name beforehand and no
+link below the work directory has an absolute target, then after a successful `ensurePrepared` every
+link below the returned directory has a relative target, and it is one of the links of the fetched
+tree, at the same place relative to the package root.  (`_partial`: without the hypothesis on
+absolute targets see `C10_cex_abs_link_into_workdir`; a relative target need not resolve inside the
+package after the rename either, see `C10_cex_rel_link_through_workdir_name`.) -/
+theorem C10_links_relative_partial (fs : FS) (work final : Str) (fs' : FS) (d : PPath)
+    (hc : AbsClean work) (hreal : RealDir fs (pathSegs work))
+    (hfresh : ∀ q, pathSegs final <+: q → fs.get q = none)
+    (hrel : ∀ k t, fs.get k = some (.link t) → pathSegs work <+: k → isAbs t = false)
+    (h : ensurePrepared fs work final = (fs', .ok d)) :
+    ∀ k t, fs'.get k = some (.link t) → d <+: k →
+      isAbs t = false ∧ ∃ x, k = d ++ x ∧ fs.get (pathSegs work ++ x) = some (.link t) := by
+  obtain ⟨n, fs1, r, hl, hw, _, hf⟩ := sn_ensure_ok h
+  obtain ⟨wp, hwp, _, hd, hcase⟩ := sn_finish_ok hf
+  have hs : SnSub fs1 fs := by
+    have := (snSub_walk (snRules fs work) work prepFuel).1 fs work n
+    rw [hw] at this; exact this
+  obtain ⟨rfl, _⟩ := sn_work_resolves hc hreal hs hwp
+  subst hd
+  intro k t hg hu
+  rcases hcase with e | e
+  · -- the final directory existed: impossible, nothing was bound there
+    rw [e] at hg
+    have := hs.get_some ((snSub_removeAll fs1 work).get_some hg)
+    rw [hfresh k hu] at this; cases this
+  · obtain ⟨x, rfl⟩ := hu
+    have hfree : ∀ e ∈ fs1, ¬ pathSegs final <+: e.1 := by
+      intro e he hpre
+      obtain ⟨k', n'⟩ := e
+      have h1 := sn_mem_get_isSome he
+      cases hg1 : fs1.get k' with
+      | none => rw [hg1] at h1; cases h1
+      | some m =>
+        have := hs.get_some hg1
+        rw [hfresh k' hpre] at this; cases this
+    rw [e, sn_renameDir_moved fs1 _ _ x hfree] at hg
+    have hg0 := hs.get_some hg
+    exact ⟨hrel _ t hg0 (List.prefix_append _ _), x, rfl, hg0⟩
+
+/-- **C10_links_resolve_after_rename_partial.** What is missing for the links of the prepared package
+to resolve inside it is a condition on their targets that the callback does not check.  Assume, in
+addition, that every link below the work directory is *local* (`SnLocalLink`: relative target, all
+`..` first, and no more of them than the link is deep below the work directory), and that the final
+directory is a sibling of the work directory.  Then after a successful `ensurePrepared` every link
+strictly below the returned directory resolves physically to a regular file at or below it. -/
+theorem C10_links_resolve_after_rename_partial (fs : FS) (work final : Str) (fs' : FS) (d : PPath)
+    (hc : AbsClean work) (hcf : AbsClean final) (hreal : RealDir fs (pathSegs work)) (hk : KeysPhysical fs)
+    (hN : SanNames (pathSegs work) fs)
+    (hfresh : ∀ q, pathSegs final <+: q → fs.get q = none)
+    (hWne : pathSegs work ≠ []) (hFne : pathSegs final ≠ [])
+    (hsib : (pathSegs work).dropLast = (pathSegs final).dropLast)
+    (hloc : ∀ p t, fs.get p = some (.link t) → pathSegs work <+: p → SnLocalLink (pathSegs work) p t)
+    (h : ensurePrepared fs work final = (fs', .ok d)) :
+    ∀ x t, x ≠ [] → fs'.get (d ++ x) = some (.link t) →
+      ∃ y pm mt c, fs'.evalSymlinks (ofSegs (d ++ x)) = some (d ++ y) ∧
+        fs'.lookup (d ++ y) = some (.file pm mt c) := by
+  have hd : d = pathSegs final := by
+    obtain ⟨_, _, _, _, _, _, hf⟩ := sn_ensure_ok h
+    obtain ⟨_, _, _, hd, _⟩ := sn_finish_ok hf
+    exact hd
+  obtain ⟨fs1, hshr, hk1, hcase, hall⟩ := C10_sanitised_before_rename fs work final fs' d hc hreal hk hN h
+  have hs : SnSub fs1 fs := by
+    intro q
+    rcases hshr q with e | ⟨_, e⟩
+    · exact Or.inl e
+    · exact Or.inr e
+  subst hd
+  intro x t hx hg
+  have hfree : ∀ e ∈ fs1, ¬ pathSegs final <+: e.1 := by
+    intro e he hpre
+    obtain ⟨k', n'⟩ := e
+    have h1 := sn_mem_get_isSome he
+    cases hg1 : fs1.get k' with
+    | none => rw [hg1] at h1; cases h1
+    | some m =>
+      have := hs.get_some hg1
+      rw [hfresh k' hpre] at this; cases this
+  rcases hcase with e | e
+  · rw [e] at hg
+    have := hs.get_some ((snSub_removeAll fs1 work).get_some hg)
+    rw [hfresh _ (List.prefix_append _ _)] at this; cases this
+  · subst e
+    have hg1 : fs1.get (pathSegs work ++ x) = some (.link t) := by
+      rw [sn_renameDir_moved fs1 _ _ x hfree] at hg; exact hg
+    obtain ⟨_, _, hkind⟩ := hall x _ hx hg1
+    rcases hkind with ⟨_, _, _, e⟩ | ⟨_, _, e⟩ | ⟨t', e, real, pm, mt, c, hev, hpre, hfile⟩
+    · cases e
+    · cases e
+    · -- components
+      have hxn : ∀ s ∈ x, NameNS s := fun s hsm =>
+        hN _ _ (hs.get_some hg1) (List.prefix_append _ _) s (List.mem_append_right _ hsm)
+      have hWn := absClean_segs work hc
+      have hFn := absClean_segs final hcf
+      have hWx : ∀ s ∈ pathSegs work ++ x, NameNS s := by
+        intro s hsm
+        rcases List.mem_append.mp hsm with h1 | h1
+        · exact hWn s h1
+        · exact hxn s h1
+      have hFx : ∀ s ∈ pathSegs final ++ x, NameNS s := by
+        intro s hsm
+        rcases List.mem_append.mp hsm with h1 | h1
+        · exact hFn s h1
+        · exact hxn s h1
+      -- the walk in `fs1`: down the spine of `W`, then inside
+      obtain ⟨hres, _⟩ := sn_evalSymlinks_some hev
+      unfold FS.resolvePath at hres
+      rw [pathSegs_ofSegs _ hWx] at hres
+      have hspineW : ∀ q, [] <+: q → q ≠ [] → q <+: [] ++ pathSegs work →
+          ∃ pm mt, fs1.lookup q = some (.dir pm mt) := by
+        intro q _ hq0 hq
+        rw [List.nil_append] at hq
+        apply keys_ancestors hk1 _ _ hg1 q (List.IsPrefix.trans hq (List.prefix_append _ _))
+        intro e
+        rw [e] at hq
+        have := List.IsPrefix.length_le hq
+        simp only [List.length_append] at this
+        exact hx (List.eq_nil_of_length_eq_zero (by omega))
+      obtain ⟨n, hn, hin⟩ := sn_resolve_spine_split fs1 (pathSegs work) resolveFuel [] x true real
+        (fun s hsm => (hWn s hsm).1.2.2) hspineW hres
+      rw [List.nil_append] at hin
+      have hxp : ∀ s ∈ x, Plain s := fun s hsm => (hxn s hsm).1
+      have hxdd : ∀ s ∈ x, s ≠ dotdot := fun s hsm => (hxp s hsm).2.2
+      have hloc1 : ∀ p t, fs1.get p = some (.link t) → pathSegs work <+: p →
+          SnLocalLink (pathSegs work) p t := fun p t hp hu => hloc p t (hs.get_some hp) hu
+      have hin' : resolve fs1 n (pathSegs work ++ []) x true = .ok real := by simpa using hin
+      obtain ⟨y, hy, hR⟩ := sn_resolve_rekey (F := pathSegs final) hfree hloc1 n [] x true real
+        (tidySegs_names x hxp)
+        (by
+          have := snUps_append_names [] x hxdd
+          simp only [List.nil_append] at this
+          rw [this]; simp [snUps])
+        hin'
+      rw [List.append_nil] at hR
+      subst hy
+      -- the spine of `F` in the renamed filesystem
+      have hlenW : (pathSegs work).length = (pathSegs work).dropLast.length + 1 := by
+        rw [List.length_dropLast]
+        have : (pathSegs work).length ≠ 0 := fun e => hWne (List.eq_nil_of_length_eq_zero e)
+        omega
+      have hlenF : (pathSegs final).length = (pathSegs final).dropLast.length + 1 := by
+        rw [List.length_dropLast]
+        have : (pathSegs final).length ≠ 0 := fun e => hFne (List.eq_nil_of_length_eq_zero e)
+        omega
+      have hlen : (pathSegs final).length = (pathSegs work).length := by rw [hlenW, hlenF, hsib]
+      have hWdir : ∃ pm mt, fs1.get (pathSegs work) = some (.dir pm mt) := by
+        obtain ⟨pm, mt, h1⟩ := hspineW (pathSegs work) List.nil_prefix hWne (by simp)
+        rw [lookup_ne_nil _ _ hWne] at h1
+        exact ⟨pm, mt, h1⟩
+      have hspineF : ∀ q, [] <+: q → q ≠ [] → q <+: [] ++ pathSegs final →
+          ∃ pm mt, (fs1.renameDir (pathSegs work) (pathSegs final)).lookup q = some (.dir pm mt) := by
+        intro q _ hq0 hq
+        rw [List.nil_append] at hq
+        rw [lookup_ne_nil _ _ hq0]
+        by_cases hqF : q = pathSegs final
+        · obtain ⟨pm, mt, h1⟩ := hWdir
+          refine ⟨pm, mt, ?_⟩
+          have := sn_renameDir_moved fs1 (pathSegs work) (pathSegs final) [] hfree
+          simp only [List.append_nil] at this
+          rw [hqF, this]; exact h1
+        · -- a proper prefix of `F`, hence of `W`
+          have hqd : q <+: (pathSegs final).dropLast := by
+            obtain ⟨z, hz⟩ := hq
+            have hzne : z ≠ [] := by
+              intro e; apply hqF; rw [← hz, e]; simp
+            rw [← hz, List.dropLast_append_of_ne_nil hzne]
+            exact List.prefix_append _ _
+          have hqW : q <+: pathSegs work := by
+            rw [← hsib] at hqd
+            exact List.IsPrefix.trans hqd (List.dropLast_prefix _)
+          have hqlen : q.length < (pathSegs work).length := by
+            have := List.IsPrefix.length_le hqd
+            rw [← hsib] at this
+            omega
+          have hnW : ¬ pathSegs work <+: q := fun hp => by
+            have := List.IsPrefix.length_le hp; omega
+          have hnF : ¬ pathSegs final <+: q := fun hp => by
+            have := List.IsPrefix.length_le hp; omega
+          rw [sn_renameDir_frame _ _ _ _ hnW hnF]
+          obtain ⟨pm, mt, h1⟩ := hspineW q List.nil_prefix hq0 (by simpa using hqW)
+          rw [lookup_ne_nil _ _ hq0] at h1
+          exact ⟨pm, mt, h1⟩
+      have hjoin := sn_resolve_spine_eq (fs1.renameDir (pathSegs work) (pathSegs final)) (pathSegs final) n []
+        x true (fun s hsm => (hFn s hsm).1.2.2) hspineF
+      rw [List.nil_append, hlen, ← hn, hR] at hjoin
+      -- the referent
+      have hyne : y ≠ [] := by
+        intro e
+        subst e
+        obtain ⟨pm', mt', h1⟩ := hWdir
+        rw [List.append_nil, lookup_ne_nil _ _ hWne, h1] at hfile
+        cases hfile
+      have hfile' : (fs1.renameDir (pathSegs work) (pathSegs final)).lookup (pathSegs final ++ y) =
+          some (.file pm mt c) := by
+        rw [sn_renameDir_lookup_moved fs1 _ _ y hyne hfree]; exact hfile
+      refine ⟨y, pm, mt, c, ?_, hfile'⟩
+      apply sn_evalSymlinks_of_resolve _ hfile'
+      unfold FS.resolvePath
+      rw [pathSegs_ofSegs _ hFx]
+      exact hjoin
+
+/-- `/t/b/.tmp-1` holding a file `a` and a link `d -> ../.tmp-1/a` (relative, through the work
+directory's own temporary name) -/
+def c10FsRel : FS :=
+  [(["t","b",".tmp-1","d"].map String.toList, .link "../.tmp-1/a".toList),
+   (["t","b",".tmp-1","a"].map String.toList, .file 0o644 0 "x".toList),
+   (["t","b",".tmp-1"].map String.toList, .dir 0o755 0),
+   (["t","b"].map String.toList, .dir 0o755 0),
+   (["t"].map String.toList, .dir 0o755 0)]
+
+/-- **C10_cex_rel_link_through_workdir_name.** A *relative* link that leaves the work directory and
+comes back through its temporary name passes the walk (it resolves inside) and the hash;
+`ensurePrepared` succeeds, and after the rename the link dangles. -/
+theorem C10_cex_rel_link_through_workdir_name :
+    let r := ensurePrepared c10FsRel c10Work c10Final
+    r.2 = .ok c10F ∧
+    r.1.get (c10F ++ ["d".toList]) = some (.link "../.tmp-1/a".toList) ∧
+    isAbs "../.tmp-1/a".toList = false ∧
+    r.1.evalSymlinks "/t/b/HASH/d".toList = none ∧
+    SanCheck c10FsRel c10W ∧ (∀ e ∈ c10FsRel, ¬ c10F <+: e.1) := by
+  have hrun : ensurePrepared c10FsRel c10Work c10Final =
+      ([(["t","b","HASH","d"].map String.toList, .link "../.tmp-1/a".toList),
+        (["t","b","HASH","a"].map String.toList, .file 0o644 0 "x".toList),
+        (["t","b","HASH"].map String.toList, .dir 0o755 0),
+        (["t","b"].map String.toList, .dir 0o755 0),
+        (["t"].map String.toList, .dir 0o755 0)], .ok c10F) := by decide
+  dsimp only
+  rw [hrun]
+  refine ⟨rfl, by decide, by decide, by decide, by decide, by decide⟩
+
+/-! ## 10. on failure the temporary directory stays -/
+
+/-- `/t/b/.tmp-1` holding a link `l -> ../../secret` that leaves the package -/
+def c10FsEsc : FS :=
+  [(["t","b",".tmp-1","l"].map String.toList, .link "../../secret".toList),
+   (["t","b",".tmp-1"].map String.toList, .dir 0o755 0),
+   (["t","b"].map String.toList, .dir 0o755 0),
+   (["t","secret"].map String.toList, .file 0o600 0 "s".toList),
+   (["t"].map String.toList, .dir 0o755 0)]
+
+/-- **C10_cex_tmp_left_on_failure.** A package with an escaping link makes `ensurePrepared` fail —
+and the filesystem is left exactly as it was: the temporary work directory, the offending link
+included, is still there (`ensureRemotePackage` has no clean-up on its error paths). -/
+theorem C10_cex_tmp_left_on_failure :
+    ensurePrepared c10FsEsc c10Work c10Final = (c10FsEsc, .fail) ∧
+    c10FsEsc.get c10W = some (.dir 0o755 0) ∧
+    c10FsEsc.get (c10W ++ ["l".toList]) = some (.link "../../secret".toList) ∧
+    SanCheck c10FsEsc c10W := by
+  decide
+
+/-! ## 11. why `SanNames` is assumed -/
+
+/-- a work directory `/t/w` with an ignore file `*` and a (non-physical) entry named `..` -/
+def c10FsOdd : FS :=
+  [(["t","w",".terraformignore"].map String.toList, .file 0o644 0 "*\n".toList),
+   (["t","w",".."].map String.toList, .dir 0o755 0),
+   (["t","w"].map String.toList, .dir 0o755 0),
+   (["t","keep"].map String.toList, .file 0o644 0 "x".toList),
+   (["t"].map String.toList, .dir 0o755 0)]
+
+/-- **C10_cex_frame_nonplain_key.** `FS` is an abstract map: nothing stops a key from having a
+component `..`, which no directory entry can be.  `filepath.Walk` would join it to the directory
+name, reach the parent of the work directory, and the rule `*` would have it removed: without
+`SanNames` the frame property fails (`/t/keep` is gone). -/
+theorem C10_cex_frame_nonplain_key :
+    AbsClean "/t/w".toList ∧ RealDir c10FsOdd (pathSegs "/t/w".toList) ∧ KeysPhysical c10FsOdd ∧
+    c10FsOdd.get (["t","keep"].map String.toList) = some (.file 0o644 0 "x".toList) ∧
+    ¬ (pathSegs "/t/w".toList <+: ["t","keep"].map String.toList) ∧
+    (ensurePrepared c10FsOdd "/t/w".toList "/t/H".toList).1.get (["t","keep"].map String.toList) = none := by
+  refine ⟨by decide, realDir_of_check (by decide), keysPhysical_of_check (by decide), by decide, by decide,
+    by decide⟩
+
+/-! ## 12. non-vacuity -/
+
+/-- a fetched package with a rule file (`junk/`), an ignored directory, a file `a` and an in-package
+relative link `sub/l -> ../a` -/
+def c10FsGood : FS :=
+  [(["t","b",".tmp-1",".terraformignore"].map String.toList, .file 0o644 0 "junk/\n".toList),
+   (["t","b",".tmp-1","junk","x"].map String.toList, .file 0o644 0 "x".toList),
+   (["t","b",".tmp-1","junk"].map String.toList, .dir 0o755 0),
+   (["t","b",".tmp-1","sub","l"].map String.toList, .link "../a".toList),
+   (["t","b",".tmp-1","sub"].map String.toList, .dir 0o755 0),
+   (["t","b",".tmp-1","a"].map String.toList, .file 0o644 0 "x".toList),
+   (["t","b",".tmp-1"].map String.toList, .dir 0o755 0),
+   (["t","b"].map String.toList, .dir 0o755 0),
+   (["t"].map String.toList, .dir 0o755 0)]
+
+/-- the hypotheses of the theorems above hold for it -/
+example : AbsClean c10Work ∧ pathSegs c10Work = c10W ∧ pathSegs c10Final = c10F ∧
+    RealDir c10FsGood c10W ∧ KeysPhysical c10FsGood ∧ SanNames c10W c10FsGood ∧
+    ¬ c10W <+: c10F ∧ ¬ c10F <+: c10W ∧ (∀ e ∈ c10FsGood, ¬ c10F <+: e.1) := by
+  have h : SanCheck c10FsGood c10W := by decide
+  obtain ⟨h1, h2, h3⟩ := sanCheck_sound h
+  exact ⟨by decide, by decide, by decide, h1, h2, h3, by decide, by decide, by decide⟩
+
+/-- … the run succeeds: the ignored directory is gone, the work directory is gone, the link is kept
+and still resolves to the file inside the package -/
+example :
+    let r := ensurePrepared c10FsGood c10Work c10Final
+    r.2 = .ok c10F ∧
+    r.1.get (c10F ++ ["junk".toList]) = none ∧ r.1.get (c10F ++ ["junk".toList, "x".toList]) = none ∧
+    r.1.get c10W = none ∧
+    r.1.get (c10F ++ ["sub".toList, "l".toList]) = some (.link "../a".toList) ∧
+    r.1.evalSymlinks "/t/b/HASH/sub/l".toList = some (c10F ++ ["a".toList]) := by
+  decide
+
+/-- a package containing a fifo, and one containing a dangling link, make `ensurePrepared` fail -/
+example :
+    (ensurePrepared
+      [(["t","b",".tmp-1","p"].map String.toList, .special),
+       (["t","b",".tmp-1"].map String.toList, .dir 0o755 0),
+       (["t","b"].map String.toList, .dir 0o755 0),
+       (["t"].map String.toList, .dir 0o755 0)] c10Work c10Final).2 = .fail ∧
+    (ensurePrepared
+      [(["t","b",".tmp-1","l"].map String.toList, .link "nowhere".toList),
+       (["t","b",".tmp-1"].map String.toList, .dir 0o755 0),
+       (["t","b"].map String.toList, .dir 0o755 0),
+       (["t"].map String.toList, .dir 0o755 0)] c10Work c10Final).2 = .fail := by
+  decide
+
+/-- a link to a directory inside the package passes the walk but not the hash -/
+example :
+    let fs : FS :=
+      [(["t","b",".tmp-1","l"].map String.toList, .link "sub".toList),
+       (["t","b",".tmp-1","sub"].map String.toList, .dir 0o755 0),
+       (["t","b",".tmp-1"].map String.toList, .dir 0o755 0),
+       (["t","b"].map String.toList, .dir 0o755 0),
+       (["t"].map String.toList, .dir 0o755 0)]
+    (prepWalk defaultRules c10Work prepFuel fs c10Work (.dir 0o755 0)).2 = .cont ∧
+    hashable fs c10W = false ∧ (ensurePrepared fs c10Work c10Final).2 = .fail := by
+  decide
+
+/-- the decision-logic theorems are not vacuous: their hypotheses hold at the offending nodes of the
+escaping-link package -/
+example :
+    pathRel c10Work "/t/b/.tmp-1/l".toList = some "l".toList ∧ "l".toList ≠ dot ∧
+    (excludes defaultRules "l".toList).1 = false ∧
+    c10FsEsc.evalSymlinks c10Work = some c10W ∧
+    c10FsEsc.evalSymlinks (pathJoin (ofSegs c10W) "l".toList) = some (["t","secret"].map String.toList) ∧
+    ¬ c10W <+: ["t","secret"].map String.toList := by
+  decide
+
+/-- `SnLocalLink` holds of the link of the good package and excludes the links of the two
+counterexamples; the final directory is a sibling of the work directory -/
+example :
+    SnLocalLink c10W (c10W ++ ["sub".toList, "l".toList]) "../a".toList ∧
+    c10W.dropLast = c10F.dropLast ∧
+    ¬ SnLocalLink c10W (c10W ++ ["d".toList]) "../.tmp-1/a".toList ∧
+    ¬ SnLocalLink c10W (c10W ++ ["d".toList]) "/t/b/.tmp-1/a".toList := by
+  unfold SnLocalLink; decide
 
 end Slug
